@@ -553,7 +553,7 @@ class TriggerManager(AoE2Object):
                          f"included in the imported triggers. Effect will be reset")
                     effect.trigger_id = -1
 
-        self.triggers += triggers
+        self.triggers.extend(triggers)
         if index != -1:
             self.move_triggers([t.trigger_id for t in triggers], index)
         return triggers
